@@ -1,6 +1,8 @@
 import TexcraftModel.Lemmas.C14
 import TexcraftModel.Lemmas.C14Words
 import TexcraftModel.Lemmas.C14Recon
+import TexcraftModel.Lemmas.C14Total
+import TexcraftModel.Lemmas.C14List
 
 /-!
 # C14 — property theorems
@@ -198,6 +200,166 @@ theorem reconstitute_conserves (eng : Engine) (he : EngineOK eng) (font : Nat) (
   have := disc_invariants_conserve _ taken _ _ (reconstitute_P1 eng he font s rbo dlb pos out h)
     (reconstitute_P2 eng he font s rbo dlb pos out h) (by simpa using hl)
   rw [this, lettersL_toItem, he.spell]
+
+/-- **Positions of the model, exactly (this is C14-h).** Let `T` be the triples (break position,
+first letter covered, end of the covered span) read off the discretionaries of the rebuilt word.
+For every engine that spells, strictly ascending positions `1 ≤ p ≤ |s|` (what `IndexIter` yields
+from Liang's ascending list, `wordPositions_sorted_range`): the break positions of the inserted
+discretionaries are, in order, exactly the allowed positions that are **not strictly inside the
+tail of an earlier discretionary's span** — `p` is skipped iff some discretionary with break
+`q < p` had to synchronise beyond `p` (`p < span end`): overlapping ligatures forced the main and
+the post-break run past `p` before both sat at a separation point with equal character counts.
+A position equal to the span end is not skipped (TeX §914's inner loop). In particular no
+discretionary sits at a position that is not allowed, and when no synchronisation runs past an
+allowed position every allowed position has its discretionary. -/
+theorem positions_exact (eng : Engine) (he : EngineOK eng) (font : Nat) (s : List Nat) (rbo : Option Nat)
+    (dlb : Bool) (pos : List Nat) (out : List (Item × Bool))
+    (hsorted : pos.Pairwise (· < ·)) (hrange : ∀ p ∈ pos, 1 ≤ p ∧ p ≤ s.length)
+    (h : rebuildWord eng font s rbo dlb pos = some out) :
+    (discPositions (out.map (·.2)) (out.map (·.1)) 0).map (·.1)
+      = pos.filter (fun p => !coveredBy (discPositions (out.map (·.2)) (out.map (·.1)) 0) p) :=
+  rebuildWord_positions he font s rbo dlb pos out hsorted hrange h
+
+/-- The hypotheses of `positions_exact` hold for what the code feeds the loop: `IndexIter` applied
+to a strictly ascending raw list (Liang positions are produced in ascending order). -/
+theorem wordPositions_sorted_range (lhm rhm : Int) (len : Nat) (raw : List Nat)
+    (hraw : raw.Pairwise (· < ·)) :
+    (wordPositions lhm rhm len raw).Pairwise (· < ·) ∧
+      ∀ p ∈ wordPositions lhm rhm len raw, 1 ≤ p ∧ p ≤ len := by
+  rw [index_iter_spec]
+  refine ⟨List.Pairwise.sublist List.filter_sublist hraw, ?_⟩
+  intro p hp
+  simp only [specPositions, List.mem_filter, Bool.and_eq_true, decide_eq_true_eq] at hp
+  omega
+
+/-- C05's engine ends every run at a separation point (nothing pending when the iterator is
+exhausted), for every program. -/
+theorem c05_engine_sep (p : C05.Program) : EngineSep (engineOfProgram p) := engineOfProgram_sep p
+
+/-- **No panic, no hang.** For every engine that spells and ends its runs at a separation point,
+every word and strictly ascending positions `1 ≤ p < |s|`: the rebuilding returns — none of the
+slices `s[ssp..hyph]` is out of range, `out.len() - elements_since_separation_point` never
+underflows, and the synchronisation loop (which would spin for ever if it asked an exhausted
+iterator to advance) terminates. -/
+theorem reconstitute_total (eng : Engine) (he : EngineOK eng) (hl : EngineSep eng) (font : Nat) (s : List Nat)
+    (rbo : Option Nat) (dlb : Bool) (pos : List Nat)
+    (hsorted : pos.Pairwise (· < ·)) (hrange : ∀ p ∈ pos, 1 ≤ p ∧ p < s.length) :
+    ∃ out, rebuildWord eng font s rbo dlb pos = some out :=
+  rebuildWord_total he hl font s rbo dlb pos hsorted hrange
+
+/-- The whole pass of the model returns, for every list, every hyphen minimums and every
+ascending source of Liang positions. -/
+theorem hyphenateM_total (eng : Engine) (he : EngineOK eng) (hl : EngineSep eng) (lhm rhm : Int)
+    (liang : List Nat → List Nat) (hliang : ∀ s, (liang s).Pairwise (· < ·)) (l : List Item) :
+    ∃ out, hyphenateM eng lhm rhm liang l = some out := by
+  suffices hs : ∀ fuel l, ∃ out, hyphList eng lhm rhm liang fuel l = some out by
+    obtain ⟨o, ho⟩ := hs (l.length + 1) l
+    exact ⟨o.map (·.1), by simp [hyphenateM, ho]⟩
+  intro fuel
+  induction fuel with
+  | zero => intro l; exact ⟨unmarkedL l, rfl⟩
+  | succ fuel ih =>
+    intro l
+    cases l with
+    | nil => exact ⟨[], rfl⟩
+    | cons x xs =>
+      simp only [hyphList, hyphListG]
+      have cont : ∀ (rest : List Item) (f : List (Item × Bool) → List (Item × Bool)),
+          ∃ out, (hyphListG (rebuildWord eng) lhm rhm liang fuel rest).map f = some out := by
+        intro rest f
+        obtain ⟨o, ho⟩ := ih rest
+        exact ⟨f o, by simp only [hyphList] at ho; rw [ho]; rfl⟩
+      split
+      · exact cont _ _
+      · split
+        · exact cont _ _
+        · split
+          · exact cont _ _
+          · split
+            · exact cont _ _
+            · split
+              · exact cont _ _
+              · rename_i f _ _ _ _
+                have hw := wordPositions_sorted_range lhm rhm (gather f (xs.drop (seek false xs 0).1) [] 0).1.length _ (hliang (gather f (xs.drop (seek false xs 0).1) [] 0).1)
+                split
+                · rename_i hnone
+                  exfalso
+                  have hrange : ∀ p ∈ wordPositions lhm rhm (gather f (xs.drop (seek false xs 0).1) [] 0).1.length
+                      (liang (gather f (xs.drop (seek false xs 0).1) [] 0).1),
+                      1 ≤ p ∧ p < (gather f (xs.drop (seek false xs 0).1) [] 0).1.length := by
+                    intro p hp
+                    have h1 := (hw.2 p hp).1
+                    rw [index_iter_spec] at hp
+                    simp only [specPositions, List.mem_filter, Bool.and_eq_true, decide_eq_true_eq] at hp
+                    omega
+                  obtain ⟨o, ho⟩ := reconstitute_total eng he hl f _ _ _ _ hw.1 hrange
+                  rw [ho] at hnone
+                  cases hnone
+                · exact cont _ _
+
+/-! ### The whole pass of the model -/
+
+/-- **P1 and P2 for the whole pass of the model.** `hyphList` returns the list after the pass with
+its inserted discretionaries marked. For every engine that spells, every list, minimums and
+Liang source: the marked nodes are discretionaries, deleting them gives `unbrokenM` — the input
+with every rebuilt word replaced by its main lig/kern run (equal to the input itself unless a
+boundary artefact C14-f/g/i occurs; the driver evaluates `unbrokenM = input` per run) — and P2
+holds at every inserted discretionary. -/
+theorem hyphenateM_invariants (eng : Engine) (he : EngineOK eng) (lhm rhm : Int) (liang : List Nat → List Nat)
+    (l : List Item) (out : List (Item × Bool)) (h : hyphList eng lhm rhm liang (l.length + 1) l = some out) :
+    ∃ u, unbrokenM eng lhm rhm liang l = some u ∧
+      P1 (out.map (·.2)) (out.map (·.1)) u = true ∧ P2 (out.map (·.2)) (out.map (·.1)) = true := by
+  obtain ⟨u, hu, g⟩ := hyphListG_lift (rebuildWord eng) (mainRunWord eng) lhm rhm liang
+    (by
+      intro f s rbo dlb pos w hw
+      have := rebuildWord_base he f s rbo dlb pos w hw
+      exact ⟨_, rfl, ⟨this.1, this.2.1, this.2.2⟩⟩) _ l out h
+  refine ⟨u, ?_, ?_, g.p2⟩
+  · simp only [unbrokenM, hu, Option.map_some]
+    rw [show (unmarkedL u).map (·.1) = u from it_unmarkedL u]
+  · simp only [P1, Bool.and_eq_true, decide_eq_true_eq]
+    exact ⟨g.amd, g.erased⟩
+
+/-- **Conservation for the whole pass of the model, relative to the INPUT.** Whatever subset of the
+inserted discretionaries is taken, the text rendered from the model's output carries exactly the
+letters of the input list — boundary artefacts included (they add or change ligature/kern nodes
+but no letters). Together with the per-run check "real output = model output" (I = M, exact)
+this is conservation for the real code on every checked run, now as a consequence of the model's
+theorem and not only of the evaluation of P1/P2 on that run. -/
+theorem hyphenateM_conserves (eng : Engine) (he : EngineOK eng) (lhm rhm : Int) (liang : List Nat → List Nat)
+    (l : List Item) (out : List (Item × Bool)) (taken : List Bool)
+    (h : hyphList eng lhm rhm liang (l.length + 1) l = some out) (hl : taken.length = out.length) :
+    render (out.map (·.2)) taken (out.map (·.1)) 0 = lettersL l := by
+  obtain ⟨u, hu, g⟩ := hyphListG_lift (rebuildWord eng) (mainRunWord eng) lhm rhm liang
+    (by
+      intro f s rbo dlb pos w hw
+      have := rebuildWord_base he f s rbo dlb pos w hw
+      exact ⟨_, rfl, ⟨this.1, this.2.1, this.2.2⟩⟩) _ l out h
+  have hp1 : P1 (out.map (·.2)) (out.map (·.1)) u = true := by
+    simp only [P1, Bool.and_eq_true, decide_eq_true_eq]; exact ⟨g.amd, g.erased⟩
+  rw [disc_invariants_conserve _ taken _ _ hp1 g.p2 (by simpa using hl)]
+  exact unbroken_letters eng he lhm rhm liang _ l u hu
+
+/-- The hypothesis "Liang positions ascending" of `positions_exact`/`hyphenateM_total` holds for
+C13's model of `hyphenate::Hyphenator::calculate_indices` (every pattern set, exception list,
+lower-case map and word): the indices are the odd positions of the score vector, enumerated in
+order. (For the real crate it is checked per run.) -/
+theorem liang_ascending (h : C13.Hyph) (lc : Char → Option Char) (w : List Char) (l : List Nat)
+    (hl : C13.calculateIndices h lc w = some l) : l.Pairwise (· < ·) := by
+  simp only [C13.calculateIndices, Option.map_eq_some_iff] at hl
+  obtain ⟨s, -, rfl⟩ := hl
+  exact (oddIdx_sorted s 0).1
+
+/-- Non-vacuity, the repository's `synchronization_2`: rules `ab→x bc→y cd→z de→w ef→v`, word
+`abcdefgh`, allowed positions 1, 4, 6: the discretionary at 1 covers letters 0..6, position 4 is
+skipped, position 6 (= the span end) gets its discretionary. -/
+private def exSync : C05.Program :=
+  { instrs := [⟨none, 98, .lig 120 .neither⟩, ⟨none, 99, .lig 121 .neither⟩, ⟨none, 100, .lig 122 .neither⟩,
+               ⟨none, 101, .lig 119 .neither⟩, ⟨none, 102, .lig 118 .neither⟩],
+    lbEntry := none, rb := none, entries := [(97, 0), (98, 1), (99, 2), (100, 3), (101, 4)], kerns := [] }
+
+example : (rebuildWord (engineOfProgram exSync) 0 [97, 98, 99, 100, 101, 102, 103, 104] none true [1, 4, 6]).map
+    (fun o => discPositions (o.map (·.2)) (o.map (·.1)) 0) = some [(1, 0, 6), (6, 6, 6)] := by decide
 
 /-- Non-vacuity: `dif-fi-cult` with the rules `f f → ff`, `ff i → ffi`, `f i → fi` (as in cmr10). -/
 private def exProg : C05.Program :=
